@@ -80,6 +80,35 @@ func v1Type(r *rand.Rand) *tdesc {
 	return t
 }
 
+// interfaces that merely include the marshal methods, and implementations that tolerate a nil receiver
+type v1Entity interface {
+	MarshalJSON() ([]byte, error)
+	Other()
+}
+type v1TextEntity interface {
+	MarshalText() ([]byte, error)
+	Other()
+}
+type v1NilSafe struct{ N int }
+
+func (p *v1NilSafe) MarshalJSON() ([]byte, error) {
+	if p == nil {
+		return []byte(`"nil-receiver"`), nil
+	}
+	return []byte(fmt.Sprintf(`{"n":%d}`, p.N)), nil
+}
+func (p *v1NilSafe) Other() {}
+
+type v1NilSafeText struct{}
+
+func (p *v1NilSafeText) MarshalText() ([]byte, error) {
+	if p == nil {
+		return []byte("nil-receiver"), nil
+	}
+	return []byte("text"), nil
+}
+func (p *v1NilSafeText) Other() {}
+
 // uPtrMarshaler has pointer-receiver methods only (addressability matters in v1 semantics)
 type uPtrMarshaler struct{ ID int }
 
@@ -218,6 +247,35 @@ func v1Exec(c *v1Case) {
 		jsonv1.HTMLEscape(&b1, in)
 		stdjson.HTMLEscape(&b2, in)
 		step("HTMLEscape", res(true, b1.Bytes()), res(true, b2.Bytes()))
+	case "marshal-iface":
+		// interface-typed fields (other than any) holding nil pointers, non-nil pointers and nil:
+		// encoding/json calls MarshalJSON / MarshalText on a nil pointer receiver
+		mk := func(k int) *v1NilSafe {
+			switch k {
+			case 0:
+				return nil
+			default:
+				return &v1NilSafe{N: k}
+			}
+		}
+		var v any
+		switch r.IntN(4) {
+		case 0:
+			v = struct {
+				E v1Entity
+				A int
+			}{mk(r.IntN(3)), 1}
+		case 1:
+			v = struct{ M stdjson.Marshaler }{mk(r.IntN(3))}
+		case 2:
+			v = []v1Entity{mk(0), mk(1), nil}
+		default:
+			v = map[string]v1TextEntity{"a": (*v1NilSafeText)(nil), "b": &v1NilSafeText{}, "c": nil}
+		}
+		c.Type = fmt.Sprintf("%T", v)
+		b1, e1 := jsonv1.Marshal(v)
+		b2, e2 := stdjson.Marshal(v)
+		step("Marshal", res(e1 == nil, b1), res(e2 == nil, b2))
 	case "marshal":
 		t := buildType(v1Type(r))
 		c.Type = truncate(t.String(), 300)
@@ -536,7 +594,7 @@ func driveV1(args map[string]string) error {
 			r := newRng(seed, uint64(3100+w))
 			for i := w; i < n; i += workers {
 				c := v1Case{ID: i + 1, Prop: "C09", Seed: []uint64{r.Uint64(), r.Uint64()}}
-				c.Kind = []string{"bytes", "bytes", "marshal", "marshal", "unmarshal", "unmarshal", "decoder", "decoder", "encoder", "unmarshal-folded"}[r.IntN(10)]
+				c.Kind = []string{"bytes", "bytes", "marshal", "marshal", "unmarshal", "unmarshal", "decoder", "decoder", "encoder", "unmarshal-folded", "marshal-iface"}[r.IntN(11)]
 				if c.Kind == "bytes" || c.Kind == "decoder" {
 					cfg := randCfg(r)
 					cfg.bigNums = r.IntN(3) == 0
